@@ -26,6 +26,18 @@ var repoDir = func() string {
 	return "/repo"
 }()
 
+// evidenceDir is where evidence/<id>.json is written: evidence/ for a full run against /repo; a scratch
+// directory (.work/evidence-scratch) for development runs - a scratch tree ($VERIF_REPO) or a single job
+// (-job) - so that such runs never overwrite the evidence of the registered checks.
+var evidenceScratch = os.Getenv("VERIF_REPO") != ""
+
+func evidenceDir() string {
+	if evidenceScratch {
+		return filepath.Join(verifDir, ".work", "evidence-scratch")
+	}
+	return filepath.Join(verifDir, "evidence")
+}
+
 // verifDir is the directory that holds checks.json, harness/, evidence/ ...: the parent of the
 // directory of this executable (bin/symgo), so that a snapshot of /verif works on its own files.
 var verifDir = func() string {
@@ -215,6 +227,7 @@ func cmdCheck(args []string) int {
 		case "-job":
 			i++
 			onlyJob = args[i]
+			evidenceScratch = true
 		case "-trace":
 			trace = true
 		}
